@@ -28,8 +28,8 @@ type T struct {
 	Elem *T
 }
 
-func S(n string) *T       { return &T{K: Simple, Name: n} }
-func Arr(e *T) *T         { return &T{K: Array, Elem: e} }
+func S(n string) *T        { return &T{K: Simple, Name: n} }
+func Arr(e *T) *T          { return &T{K: Array, Elem: e} }
 func Mp(k string, v *T) *T { return &T{K: Map, Key: k, Elem: v} }
 
 type Field struct {
@@ -112,6 +112,7 @@ type Layout struct {
 	Tight        bool // no optional spaces
 	BlankInside  bool // blank line between fields
 	Wide         bool // several spaces / tabs between tokens
+	Mixed        int  // 1: array[T][] (outermost dimension postfix, the rest prefix); 2: array[T[]] (outermost prefix, the rest postfix)
 }
 
 var Layouts = []Layout{
@@ -129,6 +130,9 @@ var Layouts = []Layout{
 	{Name: "attr-same-line", Indent: "    ", Blank: 1, AttrSameLine: true},
 	{Name: "tight", Indent: "", Blank: 0, Tight: true},
 	{Name: "crlf-tight-postfix", Indent: "\t", Blank: 0, Tight: true, CRLF: true, Postfix: true},
+	{Name: "mixed-arrays-outer-postfix", Required: true, Indent: "    ", Blank: 1, Mixed: 1},
+	{Name: "mixed-arrays-outer-prefix", Required: true, Indent: "    ", Blank: 1, Mixed: 2},
+	{Name: "one-line-attr-same-line", Indent: "    ", Blank: 1, OneLine: true, AttrSameLine: true},
 }
 
 type renderer struct {
@@ -165,15 +169,24 @@ func (r *renderer) nl() {
 	}
 }
 
-func (r *renderer) typ(t *T) string {
+func (r *renderer) typ(t *T) string { return r.typAt(t, 0) }
+
+func (r *renderer) typAt(t *T, arrayDepth int) string {
 	switch t.K {
 	case Array:
-		if r.l.Postfix {
-			return r.typ(t.Elem) + "[]"
+		postfix := r.l.Postfix
+		switch r.l.Mixed {
+		case 1:
+			postfix = arrayDepth == 0
+		case 2:
+			postfix = arrayDepth > 0
 		}
-		return "array[" + r.typ(t.Elem) + "]"
+		if postfix {
+			return r.typAt(t.Elem, arrayDepth+1) + "[]"
+		}
+		return "array[" + r.typAt(t.Elem, arrayDepth+1) + "]"
 	case Map:
-		return "map[" + t.Key + "," + r.sp() + r.typ(t.Elem) + "]"
+		return "map[" + t.Key + "," + r.sp() + r.typAt(t.Elem, 0) + "]"
 	}
 	return t.Name
 }
